@@ -98,6 +98,8 @@ class Sim:
         self._old_impl_socket: Any = None
         self.user_on_stop: list[tuple[int, float, str, bool]] = []
         self.packet_hook: Any = None
+        self._packet_starts: list[int] = []
+        self.packet_spans: list[tuple[int, int]] = []
         self.harness_errors: list[str] = []
         self.debug_clients = 0
         self.idle_loops: list[Any] = []
@@ -328,7 +330,9 @@ class Sim:
         return cli
 
     # ------------------------------------------------------------------ harness calls
-    def call(self, name: str, factory: Callable[[], Any], **meta: Any) -> CallRec:
+    def call(self, name: str, factory: Callable[[], Any], eager: bool = False, **meta: Any) -> CallRec:
+        """eager=True: the coroutine's first step runs synchronously, here (what asyncio.eager_task_factory / create_eager_task do) - e.g. from
+        inside a library callback, while the library is still dispatching the message that triggered it."""
         rec = CallRec(name, self.clock, self.next_seq())
         rec.meta = meta
         self.log("call", name)
@@ -352,9 +356,12 @@ class Sim:
                 rec.done = True
                 self.log("ret", name, rec.outcome, type(rec.exc).__name__ if rec.exc else None)
 
-        rec.task = self.loop.create_task(runner(), name=f"harness:{name}")
-        rec.task.add_done_callback(lambda t: _never_started(self, rec, t))
         self.calls.append(rec)
+        if eager:
+            rec.task = asyncio.Task(runner(), loop=self.loop, name=f"harness:{name}", eager_start=True)
+        else:
+            rec.task = self.loop.create_task(runner(), name=f"harness:{name}")
+        rec.task.add_done_callback(lambda t: _never_started(self, rec, t))
         return rec
 
     def cancel(self, rec: CallRec) -> None:
@@ -445,6 +452,7 @@ class Sim:
         v = self.view(conn)
         self.in_packet += 1
         v.packets.append((self.next_seq(), ty, conn.connection_state.name))
+        self._packet_starts.append(self._seq)
         self.log("pkt", v.idx, ty, len(data), conn.connection_state.name)
         if self.packet_hook is not None:
             self.packet_hook(v, ty, data)
@@ -452,6 +460,8 @@ class Sim:
 
     def on_packet_done(self, conn: Any, r: Any, raised: bool) -> None:
         self.in_packet -= 1
+        if self._packet_starts:
+            self.packet_spans.append((self._packet_starts.pop(), self.next_seq()))   # (seq at entry of the dispatch, seq at its exit)
 
     def on_conn_stop(self, conn: Any, expected: Any) -> None:
         v = self.view(conn)
